@@ -2,7 +2,7 @@ def register(PROPS, HARNESS_PKGS):
     part = {
         "name": "routing",
         "mc": [{"module": "Routing", "cfg": "Routing_mc.cfg"}],
-        "quick": {"gen": [{"module": "Routing", "cfg": "Routing_gen.cfg", "params": {"EP": '{"e1", "e2"}'}}], "sample": 450},
+        "quick": {"gen": [{"module": "Routing", "cfg": "Routing_gen.cfg", "params": {"EP": '{"e1", "e2"}'}}], "sample": 600},
         "thorough": {"gen": [{"module": "Routing", "cfg": "Routing_gen.cfg", "params": {"EP": '{"e1", "e2", "e3"}'}}]},
         "pkg": "internal/app", "test": "TestVerif_Routing",
         "harness_files": ["stack_test.go", "dispatch_test.go", "routing_test.go"],
